@@ -127,5 +127,6 @@ def check(ctx):
     from . import c02
     c02.api_rules(ctx, prog)
     R.c14_bounds(ctx, prog)
+    R.c14_tables(ctx, prog)
     R.exited_is_quiet(ctx, prog, "C14.L2q")
     R.c14_asserts(ctx)
